@@ -8,6 +8,11 @@ pub mod c06;
 pub mod c07;
 pub mod c08;
 pub mod c09;
+pub mod c10;
+pub mod c11;
+pub mod c12;
+pub mod distgen;
+pub mod c13;
 pub mod sumapi;
 pub mod sumgen;
 pub mod c14;
@@ -15,5 +20,5 @@ pub mod c14;
 use crate::engine::Property;
 
 pub fn all() -> Vec<Property> {
-    vec![c01::property(), c02::property(), c03::property(), c04::property(), c05::property(), c06::property(), c07::property(), c08::property(), c09::property(), c14::property()]
+    vec![c01::property(), c02::property(), c03::property(), c04::property(), c05::property(), c06::property(), c07::property(), c08::property(), c09::property(), c10::property(), c11::property(), c12::property(), c13::property(), c14::property()]
 }
